@@ -1,6 +1,7 @@
 """Encoder summaries for all mnemonic bindings + comparison against the oracle tables (shared by C01 C02 C06 C04 C12 C20)."""
 from .core import AnalysisError, Finding
 from .bitdom import summarise_binding, Cell, merge_cells, INF
+from .bitcells import cells_overlap
 from . import oracle
 
 _cache = {}
@@ -148,7 +149,30 @@ def injectivity(summary):
             continue
         if hi - lo >= (1 << (jmax + 1)):
             problems.append((p, 'accepted values span [{}, {}] but only bits {}..{} are encoded: distinct operands share a word'.format(lo, hi, jmin, jmax)))
+            continue
+        # two accepted spellings with the same encoded value (cells whose images orig + delta overlap) share a word; that is
+        # legitimate only for the alias windows the ISA tables declare (lui / auipc / c.lui unsigned spellings)
+        declared = alias_windows(summary, p)
+        images = [Cell(c[0] + c[2], c[1] + c[2], 0, c[3], (c[4] + c[2]) % c[3]) for c in cells]
+        for i, a in enumerate(cells):
+            if a[2] == 0:
+                continue
+            if any(w[0] <= a[0] and a[1] <= w[1] and w[2] == a[2] for w in declared):
+                continue
+            for k, b in enumerate(cells):
+                if k != i and cells_overlap(images[i], images[k]):
+                    problems.append((p, 'operands in {} and in {} are encoded alike: distinct operands share a word'.format(
+                        show_cells([a]), show_cells([b]))))
+                    break
     return problems
+
+
+def alias_windows(summary, param):
+    spec = oracle_spec(summary.name)
+    if spec is None or len(spec['operands']) != len(summary.params):
+        return []
+    op = spec['operands'][summary.params.index(param)]
+    return list(op.get('alias', []))
 
 
 def compare_with_oracle(summary, spec):
@@ -162,6 +186,8 @@ def compare_with_oracle(summary, spec):
     if summary.overlaps:
         i, x, y, node = summary.overlaps[0]
         out.append(('overlap', 'two fields are OR-ed onto instruction bit {} ({} and {})'.format(i, x, y)))
+    for msg in getattr(summary, 'problems', ()):
+        out.append(('operand', msg))
     ops = spec['operands']
     if len(ops) != len(summary.params):
         out.append(('arity', 'encoder takes operands {} but the ISA form has {}'.format(summary.params, [o['role'] for o in ops])))
@@ -232,8 +258,13 @@ def show_bit(b):
 
 
 def mask_after_guard(summary):
-    """Structural rule: every mask applied to an operand-derived value is dominated by a range guard whose accepted
-    interval fits the masked width (after the preceding shift).  Returns list of (mask event, message)."""
+    """Structural rule: every mask that truncates an operand-derived value is covered by a range guard whose accepted
+    interval fits the bits kept.  Stated over values, not statement order: the interval is the accepted set of the finished
+    encoder (a guard refuses before the word is returned wherever it is written), and a mask that keeps bits up to
+    position h (after the preceding shift) truncates nothing when the operand's higher bits reach the word through another
+    extraction (a slice of a scattered immediate).  The top slice must see values within [-2**h, 2**(h+1) - 1]: inside the
+    signed window the mask is the two's-complement encoding, the part above it is an alias window whose legality the
+    accepted-set comparison decides.  Returns list of (mask event, message)."""
     out = []
     for ev in summary.masks:
         cells = canon(ev['cells'])
@@ -241,15 +272,23 @@ def mask_after_guard(summary):
             continue
         lo, hi = current_values_range(cells)
         k = ev['mask'].bit_length()
+        if k == 0:
+            continue
+        h = ev['shift'] + k - 1
         if lo <= -INF or hi >= INF:
             out.append((ev, 'operand {} is masked to {} bits with no dominating range check (accepted set {})'.format(
                 ev['src'][1], k, show_cells(cells))))
             continue
-        lo >>= ev['shift']
-        hi >>= ev['shift']
-        if not ((lo >= -(1 << (k - 1)) and hi <= (1 << (k - 1)) - 1) or (lo >= 0 and hi <= (1 << k) - 1)) and k > 0:
+        top = ev.get('top')
+        if top is not None and h < top:
+            continue
+        if (lo >> (h + 1)) == (hi >> (h + 1)):
+            # the bits dropped above h are the same for every accepted value (x8..x15 & 7): nothing is merged; whether such
+            # values are legal at all is the accepted-set comparison's business
+            continue
+        if not (lo >= -(1 << h) and hi <= (1 << (h + 1)) - 1):
             out.append((ev, 'operand {} with accepted range [{}, {}] (after >> {}) is masked to {} bits: values are wrapped'.format(
-                ev['src'][1], lo << ev['shift'], hi << ev['shift'], ev['shift'], k)))
+                ev['src'][1], lo, hi, ev['shift'], k)))
     return out
 
 
@@ -296,3 +335,20 @@ def enumerate_image(summary, width, limit=1 << 20):
         if len(words) > limit:
             raise AnalysisError('image of {} too large to enumerate'.format(summary.name))
     return words
+
+
+def register_spellings_normalised(facts, mnemonics=None):
+    """Is every register operand converted with int(., base=0) (hex / octal / binary spellings of the number) before it is
+    looked up in the register table?  Decided on the interpreted encoders, wherever the conversion and the lookup are
+    written (lookup_register, a helper, a method).  -> (True | False | None when no register operand was seen, [offenders])"""
+    sums = all_summaries(facts)
+    seen, bad = 0, []
+    for m in (mnemonics if mnemonics is not None else [m for m in facts.instructions() if oracle_spec(m) is not None]):
+        s = sums[m]
+        for p, ok in getattr(s, 'lookup_normalised', {}).items():
+            seen += 1
+            if not ok:
+                bad.append((m, p))
+    if not seen:
+        return None, []
+    return not bad, bad
